@@ -619,7 +619,13 @@ def r0_allocated_view(program, rep):
 
 def check(program, rep):
     program.module(MOD)
-    inline = _inline_props(program)
+    program.get(CLS + ".address")
+    try:
+        inline = _inline_props(program)
+    except AnalysisError as e:
+        # (the property exists but does more than compute an expression)
+        inline = None
+        why_ = str(e)
     # the proofs are about a view whose state is the pair (_start_address,
     # _end_address) stored by __init__ plus _offset; another representation
     # (e.g. start + length, with the end derived) is outside them
@@ -629,8 +635,12 @@ def check(program, rep):
                  if chain(t) and chain(t).startswith("self."))
     derived = [m.name for m in class_methods(program, CLS)
                if m.name in ("_start_address", "_end_address", "_offset")]
-    if not {"self._start_address", "self._end_address",
-            "self._offset"} <= stored or derived:
+    if inline is None:
+        rep.undecided(["C13-R0", "C13-R1", "C13-R2", "C13-R3", "C13-R4"],
+                      why_ + ": the view's address arithmetic is not read "
+                      "through it")
+    elif not {"self._start_address", "self._end_address",
+              "self._offset"} <= stored or derived:
         rep.undecided(["C13-R0", "C13-R1", "C13-R2", "C13-R3", "C13-R4"],
                       "SlicedMemoryIO no longer keeps its region as the "
                       "stored pair (_start_address, _end_address) and its "
